@@ -37,6 +37,23 @@ CATALOGS = {
                   default_namespace='mindsdb'),
     'default-int1': dict(integrations=['int1', 'int2'], default_namespace='int1'),
 }
+# int2 is an api-type integration (selects from it are split into a fetch and a select over the fetched rows): used by
+# api_select_shapes only
+API_CATALOGS = {
+    'api-int2': dict(integrations=[{'name': 'int1', 'class_type': 'sql', 'type': 'data'},
+                                   {'name': 'int2', 'class_type': 'api', 'type': 'data'}],
+                     default_namespace='mindsdb'),
+}
+ALL_CATALOGS = dict(CATALOGS, **API_CATALOGS)
+TABLES_OF = {'int1': {'t1', 't2'}, 'int2': {'t1', 't3', 't4'}}       # = PLACES + the extra int2.t1 of DATA_TABLES
+
+
+def integration_names(cat):
+    return [(i['name'] if isinstance(i, dict) else i).lower() for i in ALL_CATALOGS[cat]['integrations']]
+
+
+def api_integrations(cat):
+    return [i['name'].lower() for i in ALL_CATALOGS[cat]['integrations'] if isinstance(i, dict) and i.get('class_type') == 'api']
 
 
 def prepare(tier):
@@ -185,6 +202,165 @@ def is_semijoin_filter(n, plan):
     return False
 
 
+def api_features(plan, cat):
+    """What the fetch from an api-type integration was given besides WHERE (the select over the fetched rows applies the
+    clauses of the query again)."""
+    out = set()
+    apis = api_integrations(cat)
+    for s in plan.steps:
+        if type(s).__name__ == 'FetchDataframeStep' and s.integration in apis and type(s.query).__name__ == 'Select':
+            q = s.query
+            if not (len(q.targets) == 1 and type(q.targets[0]).__name__ == 'Star'):
+                out.add('apifetch:targets')
+            if q.limit is not None:
+                out.add('apifetch:limit')
+            if q.order_by:
+                out.add('apifetch:order')
+    return out
+
+
+def select_tables(sel):
+    """Identifiers in table position of one Select (leaves of its FROM; nested selects are not entered)."""
+    from mindsdb_sql.parser import ast
+    out, stack = [], [sel.from_table]
+    while stack:
+        n = stack.pop()
+        if isinstance(n, ast.Join):
+            stack += [n.right, n.left]
+        elif isinstance(n, ast.Identifier):
+            out.append(n)
+    return out
+
+
+def static_defects(plan, orig, cat):
+    """Steps that cannot be carried out by their documented meaning, whatever the data: [(site, detail)].
+    - a fetch from integration I that names a table of another integration (it sees the tables of I only);
+    - a fetch from I that names a table which I does not hold (and which is no CTE of the fetched query);
+    - a fetch whose query refers to `q.col` where q is no table or alias of that query (a reference to the enclosing
+      query of a sub-select that was planned on its own);
+    - a set operation whose operand is a Parameter (results are filled in as values, not as queries);
+    - a join condition that uses a bare name that the statement does not contain;
+    - a sub-select step over a fetch with an explicit select list that uses a column which is not in that list."""
+    from mindsdb_sql.parser import ast
+    from vf.oracles.struct import walk
+    ints = integration_names(cat)
+    out = []
+    for s in plan.steps:
+        cn = type(s).__name__
+        q = getattr(s, 'query', None)
+        if q is None or not isinstance(q, ast.ASTNode):
+            continue
+        nodes = list(walk(q))
+        for n in nodes:
+            if isinstance(n, (ast.Union, ast.Intersect, ast.Except)) and \
+                    (isinstance(n.left, ast.Parameter) or isinstance(n.right, ast.Parameter)):
+                out.append(('setop-over-parameters', f'step {s.step_num} ({cn}): operand of {type(n).__name__} is a Parameter'))
+        if cn == 'FetchDataframeStep' and isinstance(q, (ast.Select, ast.Union, ast.Intersect, ast.Except)):
+            tabs, names, ctes = [], set(), set()
+            for n in nodes:
+                if isinstance(n, (ast.Select, ast.Union, ast.Intersect, ast.Except)):
+                    for c in (getattr(n, 'cte', None) or []):
+                        names.add(str(c.name.parts[-1]).lower())
+                        ctes.add(str(c.name.parts[-1]).lower())
+                if isinstance(n, ast.Select):
+                    tabs += select_tables(n)
+                    if isinstance(n.from_table, ast.Select) and n.from_table.alias is not None:
+                        names.add(str(n.from_table.alias.parts[-1]).lower())
+                if isinstance(n, ast.Join):
+                    for side in (n.left, n.right):
+                        if isinstance(side, ast.Select) and side.alias is not None:
+                            names.add(str(side.alias.parts[-1]).lower())
+            tab_ids = {id(t) for t in tabs}
+
+            seen_ids = set()
+
+            def missing(n, scope):
+                # bare table names that are neither a CTE in scope (a WITH belongs to its select) nor a table of I
+                if id(n) in seen_ids:
+                    return
+                if isinstance(n, (list, tuple, ast.ASTNode)):
+                    seen_ids.add(id(n))
+                if isinstance(n, (list, tuple)):
+                    for x in n:
+                        missing(x, scope)
+                elif isinstance(n, ast.ASTNode):
+                    if isinstance(n, (ast.Select, ast.Union, ast.Intersect, ast.Except)) and getattr(n, 'cte', None):
+                        scope = scope | {str(c.name.parts[-1]).lower() for c in n.cte}
+                    if isinstance(n, (ast.Union, ast.Intersect, ast.Except)):
+                        # `WITH c AS (..) SELECT .. UNION SELECT ..`: the parser keeps the list on the first select,
+                        # in the text it stands before the whole compound
+                        first = n.left
+                        while isinstance(first, (ast.Union, ast.Intersect, ast.Except)):
+                            first = first.left
+                        if getattr(first, 'cte', None) and not getattr(first, 'parentheses', False):
+                            scope = scope | {str(c.name.parts[-1]).lower() for c in first.cte}
+                    if isinstance(n, ast.Select):
+                        for t in select_tables(n):
+                            if len(t.parts) == 1 and isinstance(t.parts[0], str) and t.parts[0].lower() not in scope \
+                                    and t.parts[0].lower() not in TABLES_OF[s.integration]:
+                                out.append(('fetch-reads-missing-table',
+                                            f'step {s.step_num}: fetch from {s.integration} names {t.parts[0]}, which is no table of it'))
+                    for k, v in vars(n).items():
+                        if k != 'alias' and not k.startswith('_'):
+                            missing(v, scope)
+            if s.integration in TABLES_OF:
+                missing(q, frozenset())
+            for t in tabs:
+                names.add(str(t.parts[-1]).lower())
+                if t.alias is not None:
+                    names.add(str(t.alias.parts[-1]).lower())
+                if len(t.parts) >= 2 and str(t.parts[0]).lower() in ints and str(t.parts[0]).lower() != s.integration:
+                    out.append(('fetch-reads-other-integration',
+                                f'step {s.step_num}: fetch from {s.integration} names {".".join(map(str, t.parts))}'))
+            for n in nodes:
+                if isinstance(n, ast.Identifier) and id(n) not in tab_ids and len(n.parts) >= 2 \
+                        and isinstance(n.parts[-2], str) and n.parts[-2].lower() not in names:
+                    out.append(('fetch-outer-reference',
+                                f'step {s.step_num}: fetch from {s.integration} refers to {".".join(map(str, n.parts))}'))
+        if cn == 'JoinStep' and isinstance(q, ast.Join) and q.condition is not None:
+            known = {str(n.parts[0]).lower() for n in walk(orig) if isinstance(n, ast.Identifier) and len(n.parts) == 1
+                     and isinstance(n.parts[0], str)}
+            for n in walk(q.condition):
+                if isinstance(n, ast.Identifier) and len(n.parts) == 1 and isinstance(n.parts[0], str) \
+                        and n.parts[0].lower() not in known:
+                    out.append(('join-condition-invented-name',
+                                f'step {s.step_num}: join condition uses a bare name which is not in the statement'))
+    fetched = {}        # step_num -> output names of a fetch with an explicit select list
+    for s in plan.steps:
+        q = getattr(s, 'query', None)
+        if type(s).__name__ == 'FetchDataframeStep' and isinstance(q, ast.Select):
+            names = []
+            for t in q.targets:
+                if t.alias is not None:
+                    names.append(str(t.alias.parts[-1]).lower())
+                elif isinstance(t, ast.Identifier) and isinstance(t.parts[-1], str):
+                    names.append(t.parts[-1].lower())
+                else:
+                    names = None        # a star or an unnamed expression: the names are the engine's business
+                    break
+            if names is not None:
+                fetched[s.step_num] = set(names)
+        if type(s).__name__ == 'SubSelectStep' and isinstance(q, ast.Select) \
+                and getattr(s.dataframe, 'step_num', None) in fetched \
+                and not any(isinstance(n, (ast.Select, ast.Union, ast.Intersect, ast.Except)) and n is not q for n in walk(q)):
+            have = fetched[s.dataframe.step_num]
+            own = {str(t.alias.parts[-1]).lower() for t in q.targets if t.alias is not None}
+            skip = {id(t.alias) for t in walk(q) if isinstance(t, ast.ASTNode) and getattr(t, 'alias', None) is not None}
+            for part, ok in ((q.targets, have), (q.where, have), (q.group_by, have | own), (q.having, have | own),
+                             (q.order_by, have | own)):
+                for n in walk(part) if part is not None else ():
+                    if isinstance(n, ast.Identifier) and id(n) not in skip and isinstance(n.parts[-1], str) \
+                            and n.parts[-1].lower() not in ok:
+                        out.append(('subselect-column-not-fetched',
+                                    f'step {s.step_num}: uses {".".join(map(str, n.parts))}, step {s.dataframe.step_num} returns {sorted(have)}'))
+    seen, uniq = set(), []
+    for site, d in out:
+        if site not in seen:
+            seen.add(site)
+            uniq.append((site, d))
+    return uniq
+
+
 def neutralise(plan, what, orig=None):
     """Copy of the plan with pushed-down mechanisms removed from the per-table fetches (the outer query / join steps
     still apply WHERE, ON, ORDER BY and LIMIT, so a correct plan keeps its meaning)."""
@@ -287,7 +463,7 @@ def judge(case, col):
         return []
     orig = copy.deepcopy(tree)
     try:
-        plan = plan_query(tree, **CATALOGS[cat])
+        plan = plan_query(tree, **ALL_CATALOGS[cat])
     except (PlanningException, NotImplementedError) as e:
         import os
         if os.environ.get('VF_INTERP_AS_FAILURE'):
@@ -301,6 +477,13 @@ def judge(case, col):
     places = set(meta.get('places', []))
     if len(places) >= 2:
         classes.append('multi-place')
+    defects = static_defects(plan, orig, cat)
+    if defects:
+        pf = sorted(set(plan_features(plan, orig)) | api_features(plan, cat))
+        out = [findings.record('step-not-executable', site, sorted(set(tags) | set(pf)), cfg,
+                               f'{d}; steps: {[type(s).__name__ for s in plan.steps]}', sql) for site, d in defects]
+        col.case((cat, sql), False, classes + ['step-not-executable'] + ['defect:' + site for site, _ in defects])
+        return out
     conns = {}
 
     def fetch_conn(integ):
@@ -330,7 +513,7 @@ def judge(case, col):
         col.excluded('recursion')
         return []
     got = rel.rows
-    pf = plan_features(plan, orig)
+    pf = sorted(set(plan_features(plan, orig)) | api_features(plan, cat))
     classes += ['plan:' + f for f in pf] + ['judged']
     out = []
     d = verdict(truth, got, unlimited, meta)
@@ -345,6 +528,8 @@ def judge(case, col):
             if verdict(truth, rel2.rows, unlimited, meta) is None:
                 needs = '+'.join(what)
                 break
+        if needs == 'unexplained' and any(f.startswith('apifetch:') for f in pf):
+            needs = 'api-fetch'
         classes.append('mismatch-explained-by:' + needs)
         out.append(findings.record('rows-differ', 'pushdown:' + needs, sorted(set(tags) | set(pf)), cfg,
                                    f'{d}; steps: {[type(s).__name__ for s in plan.steps]}; log: {it.log[-4:]}', sql))
@@ -500,8 +685,282 @@ def star_over_subselect(draw):
     return {'sql': sql, 'meta': meta}
 
 
+INT1_TABLES = [('int1', 't1'), ('int1', 't2')]
+INT2_TABLES = [('int2', 't3'), ('int2', 't4'), ('int2', 't1')]
+
+
+def int_cols(t):
+    return [c for c, ty in model.SCHEMA[t[1]] if ty == 'int']
+
+
+@st.composite
+def api_select_shapes(draw):
+    """Selects from one table of the api-type integration int2 (catalog api-int2) with the clauses that the planner
+    divides between the fetch and the select over the fetched rows: aggregates, GROUP BY, DISTINCT, renamed / computed
+    targets, ORDER BY a column / an alias / a column that is not selected, LIMIT, OFFSET.  A conjunct
+    `IN (select from int1)` makes the plan read both integrations."""
+    t = draw(st.sampled_from(INT2_TABLES))
+    ca, cb = int_cols(t)[0], int_cols(t)[1]
+    kind = draw(st.sampled_from(['agg', 'group', 'group', 'distinct', 'offset', 'plain', 'expr', 'order-unselected']))
+    tags = {'shape:api-select', 'api:' + kind}
+    distinct, group, orders = '', '', []          # orders: (text, output index or None)
+    if kind == 'agg':
+        fn = draw(st.sampled_from(['max', 'min', 'sum', 'count']))
+        tcols = ['count(*)', f'{fn}(x1.{cb})']
+        tags.add('group')
+    elif kind == 'group':
+        fn = draw(st.sampled_from(['count(*)', f'sum(x1.{cb})', f'max(x1.{cb})', f'count(x1.{cb})']))
+        tcols = [f'x1.{ca}', fn]
+        group = f' GROUP BY x1.{ca}'
+        orders = [(f'x1.{ca}', 0), ('c0', 0), ('c1', 1)]
+        tags.add('group')
+    elif kind == 'distinct':
+        c = draw(st.sampled_from([ca, cb]))
+        tcols, distinct = [f'x1.{c}'], 'DISTINCT '
+        orders = [(f'x1.{c}', 0), ('c0', 0)]
+        tags.add('distinct')
+    elif kind in ('offset', 'plain'):
+        tcols = [f'x1.{ca}', f'x1.{cb}']
+        orders = [(f'x1.{ca}', 0), (f'x1.{cb}', 1), ('c0', 0), ('c1', 1)]
+    elif kind == 'expr':
+        tcols = [f'(x1.{ca} + 1)', f'x1.{cb}']
+        orders = [(f'x1.{ca}', 0), ('c0', 0), (f'x1.{cb}', 1), ('c1', 1)]      # x + 1 is ordered like x
+    else:
+        tcols = [f'x1.{ca}']
+        orders = [(f'x1.{cb}', None)]
+    if draw(st.integers(0, 1)) == 0:
+        tcols = [f'{t_} AS c{i}' for i, t_ in enumerate(tcols)]
+        tags.add('api:renamed-targets')
+    else:
+        orders = [o for o in orders if o[0].startswith('x1.')]
+    conj = []
+    if draw(st.integers(0, 2)) == 0:
+        conj.append(f'(x1.{draw(st.sampled_from([ca, cb]))} {draw(st.sampled_from([">", "<=", "!=", "="]))} {draw(st.integers(0, 2))})')
+    if draw(st.integers(0, 1)) == 0:
+        u = draw(st.sampled_from(INT1_TABLES))
+        conj.append(f'(x1.{ca} {draw(st.sampled_from(["", "", "NOT "]))}IN (SELECT s2.{draw(st.sampled_from(int_cols(u)))} FROM {u[0]}.{u[1]} AS s2))')
+        tags.add('sub:in')
+    where = (' WHERE ' + ' AND '.join(conj)) if conj else ''
+    if conj:
+        tags.add('where')
+    base = f'SELECT {distinct}{", ".join(tcols)} FROM {t[0]}.{t[1]} AS x1{where}{group}'
+    meta = {'order_cols': [], 'total_order': False, 'limit': False}
+    sql = base
+    ordered = bool(orders) and (kind in ('offset', 'order-unselected') or draw(st.integers(0, 3)) > 0)
+    if ordered:
+        picked, seen = [], set()
+        for _ in range(draw(st.integers(1, 2))):
+            o = draw(st.sampled_from(orders))
+            if o[1] not in seen:
+                seen.add(o[1])
+                picked.append(o)
+        dr = draw(st.sampled_from(['', '', ' DESC']))
+        base += ' ORDER BY ' + ', '.join(txt + dr for txt, _ in picked)
+        sql = base
+        tags.add('order')
+        if any(txt.startswith('x1.') for txt, _ in picked):
+            tags.add('order:source-column')
+        if None not in seen:
+            meta['order_cols'] = [i for _, i in picked]
+            meta['total_order'] = len(seen) == len(tcols)
+    if kind != 'order-unselected' and kind != 'agg' and (kind == 'offset' or draw(st.integers(0, 2)) > 0):
+        sql = base + f' LIMIT {draw(st.integers(1, 3))}'
+        tags.add('limit')
+        meta['limit'] = True
+        meta['sql_unlimited'] = base
+        if not ordered:
+            tags.add('limit:unordered')
+        elif not meta['total_order']:
+            tags.add('limit:partial-order')
+        if kind == 'offset' or draw(st.integers(0, 4)) == 0:
+            sql += f' OFFSET {draw(st.integers(0, 2))}'
+            tags.add('offset')
+    meta.update({'tags': sorted(tags), 'places': ['int2'] + (['int1'] if 'sub:in' in tags else []),
+                 'tables': [f'{t[0]}.{t[1]}'], 'types': ['int'] * len(tcols)})
+    return {'sql': sql, 'meta': meta}
+
+
+@st.composite
+def clause_subselect_shapes(draw):
+    """A sub-select over the other integration in HAVING, GROUP BY, ORDER BY or JOIN ... ON (the planner looks for
+    nested selects in the select list and WHERE); the query reads a table, a join or a sub-select."""
+    a = draw(st.sampled_from(INT1_TABLES))
+    b = draw(st.sampled_from(INT2_TABLES))
+    if draw(st.integers(0, 1)) == 0:
+        a, b = b, a
+    ca, cb = draw(st.sampled_from(int_cols(a))), draw(st.sampled_from(int_cols(b)))
+    pos = draw(st.sampled_from(['having', 'having', 'group-by', 'order-by', 'order-by', 'on', 'on']))
+    frm = draw(st.sampled_from(['table', 'table', 'join', 'subselect'])) if pos != 'on' else 'join'
+    tags = {'shape:clause-subselect', 'sub:' + pos, 'from:' + frm}
+    fn = draw(st.sampled_from(['min', 'max', 'count', 'sum']))
+    scalar = f'(SELECT {fn}(s9.{cb}) FROM {b[0]}.{b[1]} AS s9)'
+    if frm == 'table':
+        src = f'{a[0]}.{a[1]} AS x1'
+    elif frm == 'subselect':
+        src = f'(SELECT y1.{ca} AS {ca} FROM {a[0]}.{a[1]} AS y1) AS x1'
+        tags.add('sub:from')
+    else:
+        c = draw(st.sampled_from(INT1_TABLES + INT2_TABLES))
+        jk = draw(st.sampled_from(['JOIN', 'LEFT JOIN', 'INNER JOIN']))
+        tags.add('join:' + jk)
+        on = '(x1.a = x2.a)'
+        if pos == 'on':
+            side = draw(st.sampled_from(['x1', 'x2']))
+            if draw(st.integers(0, 1)) == 0:
+                extra = f'({side}.a {draw(st.sampled_from(["", "NOT "]))}IN (SELECT s9.{cb} FROM {b[0]}.{b[1]} AS s9))'
+            else:
+                extra = f'({side}.a {draw(st.sampled_from([">=", "<", "="]))} {scalar})'
+            on = f'({on} AND {extra})'
+        src = f'{a[0]}.{a[1]} AS x1 {jk} {c[0]}.{c[1]} AS x2 ON {on}'
+    col = f'x1.{ca}' if frm != 'join' else 'x1.a'
+    meta = {'order_cols': [], 'total_order': False, 'limit': False}
+    if pos == 'having':
+        h = draw(st.sampled_from([f'({col} {draw(st.sampled_from([">", "<=", "="]))} {scalar})',
+                                  f'(count(*) {draw(st.sampled_from([">=", "<", "="]))} {scalar})']))
+        sql = f'SELECT {col} AS c0, count(*) AS c1 FROM {src} GROUP BY {col} HAVING {h}'
+        types = ['int', 'int']
+        tags |= {'group', 'having'}
+    elif pos == 'group-by':
+        sql = f'SELECT count(*) AS c0, min({col}) AS c1 FROM {src} GROUP BY ({col} {draw(st.sampled_from([">", "<=", "="]))} {scalar})'
+        types = ['int', 'int']
+        tags.add('group')
+    elif pos == 'order-by':
+        key = f'({scalar} - {col})'
+        sql = f'SELECT {col} AS c0, {key} AS c1 FROM {src} ORDER BY {key}{draw(st.sampled_from(["", " DESC"]))}'
+        types = ['int', 'int']
+        meta['order_cols'] = [1]
+        tags |= {'order', 'sub:target'}
+    else:
+        sql = f'SELECT x1.a AS c0, x2.a AS c1 FROM {src}'
+        types = ['int', 'int']
+    meta.update({'tags': sorted(tags), 'places': ['int1', 'int2'], 'tables': sorted({f'{a[0]}.{a[1]}', f'{b[0]}.{b[1]}'}),
+                 'types': types})
+    return {'sql': sql, 'meta': meta}
+
+
+@st.composite
+def in_setop_shapes(draw):
+    """`x [NOT] IN (select UNION / UNION ALL / INTERSECT / EXCEPT select)` with the operands in two integrations (a set
+    operation as a nested query: it has to be planned as a whole)."""
+    t = draw(st.sampled_from(INT1_TABLES + INT2_TABLES))
+    l = draw(st.sampled_from(INT1_TABLES + INT2_TABLES))
+    r = draw(st.sampled_from([x for x in INT1_TABLES + INT2_TABLES if x[0] != l[0]]))
+    op = draw(st.sampled_from(['UNION', 'UNION', 'UNION ALL', 'INTERSECT', 'EXCEPT']))
+    neg = draw(st.sampled_from(['', '', 'NOT ']))
+    cl, cr, ct = draw(st.sampled_from(int_cols(l))), draw(st.sampled_from(int_cols(r))), draw(st.sampled_from(int_cols(t)))
+    wl = f' WHERE (s2.{cl} IS NOT NULL)' if draw(st.integers(0, 1)) == 0 else ''
+    wr = f' WHERE (s3.{cr} {draw(st.sampled_from([">", "<=", "!="]))} {draw(st.integers(0, 2))})' if draw(st.integers(0, 2)) == 0 else ''
+    sub = f'SELECT s2.{cl} FROM {l[0]}.{l[1]} AS s2{wl} {op} SELECT s3.{cr} FROM {r[0]}.{r[1]} AS s3{wr}'
+    tags = {'shape:in-setop', 'sub:in', 'sub:in-setop', 'setop:' + op, 'where'}
+    if draw(st.integers(0, 2)) == 0:
+        u = draw(st.sampled_from(INT1_TABLES + INT2_TABLES))
+        jk = draw(st.sampled_from(['JOIN', 'LEFT JOIN']))
+        tags.add('join:' + jk)
+        sql = (f'SELECT x1.{ct} AS c0, x2.a AS c1 FROM {t[0]}.{t[1]} AS x1 {jk} {u[0]}.{u[1]} AS x2 ON (x1.a = x2.a) '
+               f'WHERE (x1.{ct} {neg}IN ({sub}))')
+        types = ['int', 'int']
+    else:
+        sql = f'SELECT x1.{ct} AS c0 FROM {t[0]}.{t[1]} AS x1 WHERE (x1.{ct} {neg}IN ({sub}))'
+        types = ['int']
+    meta = {'order_cols': [], 'total_order': False, 'limit': False, 'tags': sorted(tags), 'places': ['int1', 'int2'],
+            'tables': sorted({f'{x[0]}.{x[1]}' for x in (t, l, r)}), 'types': types}
+    return {'sql': sql, 'meta': meta}
+
+
+@st.composite
+def correlated_shapes(draw):
+    """A sub-select over the other integration that refers to a column of the enclosing query (IN, EXISTS, scalar
+    comparison): it cannot be fetched on its own."""
+    a = draw(st.sampled_from(INT1_TABLES))
+    b = draw(st.sampled_from(INT2_TABLES))
+    if draw(st.integers(0, 1)) == 0:
+        a, b = b, a
+    ca, cb = draw(st.sampled_from(int_cols(a))), draw(st.sampled_from(int_cols(b)))
+    corr = f'(s2.a {draw(st.sampled_from(["=", "=", "<", "!="]))} x1.{ca})'
+    kind = draw(st.sampled_from(['in', 'exists', 'not-exists', 'scalar']))
+    if kind == 'in':
+        cond = f'(x1.{ca} {draw(st.sampled_from(["", "NOT "]))}IN (SELECT s2.{cb} FROM {b[0]}.{b[1]} AS s2 WHERE {corr}))'
+    elif kind == 'scalar':
+        cond = f'(x1.{ca} {draw(st.sampled_from([">=", "<", "="]))} (SELECT max(s2.{cb}) FROM {b[0]}.{b[1]} AS s2 WHERE {corr}))'
+    else:
+        cond = f'({"NOT " if kind == "not-exists" else ""}EXISTS (SELECT s2.{cb} FROM {b[0]}.{b[1]} AS s2 WHERE {corr}))'
+    tags = {'shape:correlated', 'sub:correlated-other-place', 'sub:' + kind, 'where'}
+    if draw(st.integers(0, 2)) == 0:
+        u = draw(st.sampled_from(INT1_TABLES + INT2_TABLES))
+        jk = draw(st.sampled_from(['JOIN', 'LEFT JOIN']))
+        tags.add('join:' + jk)
+        sql = f'SELECT x1.{ca} AS c0, x2.a AS c1 FROM {a[0]}.{a[1]} AS x1 {jk} {u[0]}.{u[1]} AS x2 ON (x1.a = x2.a) WHERE {cond}'
+        types = ['int', 'int']
+    else:
+        sql = f'SELECT x1.{ca} AS c0 FROM {a[0]}.{a[1]} AS x1 WHERE {cond}'
+        types = ['int']
+    meta = {'order_cols': [], 'total_order': False, 'limit': False, 'tags': sorted(tags), 'places': ['int1', 'int2'],
+            'tables': sorted({f'{a[0]}.{a[1]}', f'{b[0]}.{b[1]}'}), 'types': types}
+    return {'sql': sql, 'meta': meta}
+
+
+@st.composite
+def cte_name_shapes(draw):
+    """Who a bare table name denotes (catalog default-int1, so a bare t1 / t2 is a table of int1): a CTE is found
+    whatever the case of its name, and only inside the select that declares it: kinds
+    case = `WITH T2 AS (..) SELECT .. FROM t2`; leak-where / leak-from = the name is used once inside the WITH select
+    (the CTE) and once outside of it (the table)."""
+    name = draw(st.sampled_from(['t1', 't2', 't2']))
+    # (a body that reads the table of the same name is left out: with the integration cut off, the fetched text
+    # defines the CTE by itself)
+    b = draw(st.sampled_from([x for x in INT1_TABLES + INT2_TABLES if x[1] != name]))
+    m = draw(st.sampled_from(INT1_TABLES + INT2_TABLES))
+    cb, cm = draw(st.sampled_from(int_cols(b))), draw(st.sampled_from(int_cols(m)))
+    kind = draw(st.sampled_from(['case', 'leak-where', 'leak-where', 'leak-from']))
+    tags = {'shape:cte-name', 'cte', 'cte:named-like-default-table'}
+    body = f'SELECT z.{cb} AS a FROM {b[0]}.{b[1]} AS z'
+    if kind == 'case':
+        spell = draw(st.sampled_from([name.upper(), name.capitalize()]))
+        d, u = (spell, name) if draw(st.integers(0, 1)) == 0 else (name, spell)
+        tags.add('cte:case-differs')
+        # (not joined: the columns of a joined CTE are known to the executor under the CTE's name, not the alias)
+        w = f' WHERE (y.a {draw(st.sampled_from([">", "<=", "!="]))} {draw(st.integers(0, 2))})' if draw(st.integers(0, 2)) == 0 else ''
+        sql = f'WITH {d} AS ({body}) SELECT y.a AS c0 FROM {u} AS y{w}'
+        types = ['int']
+    else:
+        tags.add('cte:used-out-of-scope')
+        inner = f'WITH {name} AS ({body}) SELECT y.a AS a FROM {name} AS y'
+        outer = f'(SELECT w.a FROM {name} AS w)'
+        if kind == 'leak-where':
+            op = draw(st.sampled_from(['OR', 'AND']))
+            tags |= {'sub:in', 'where'}
+            if op == 'OR':
+                tags.add('or')
+            sql = (f'SELECT x1.{cm} AS c0 FROM {m[0]}.{m[1]} AS x1 WHERE ((x1.{cm} IN ({inner})) {op} '
+                   f'(x1.{cm} {draw(st.sampled_from(["", "NOT "]))}IN {outer}))')
+        else:
+            tags |= {'sub:from', 'sub:in', 'where'}
+            sql = f'SELECT q.a AS c0 FROM ({inner}) AS q WHERE (q.a {draw(st.sampled_from(["", "NOT "]))}IN {outer})'
+        types = ['int']
+    meta = {'order_cols': [], 'total_order': False, 'limit': False, 'tags': sorted(tags), 'places': ['int1', 'int2'],
+            'tables': sorted({f'{b[0]}.{b[1]}', f'{m[0]}.{m[1]}', 'int1.' + name}), 'types': types}
+    return {'sql': sql, 'meta': meta}
+
+
 @st.composite
 def cases(draw):
+    extra = draw(st.integers(0, 39))
+    if extra < 4:
+        shape = [api_select_shapes, api_select_shapes, clause_subselect_shapes, in_setop_shapes][extra]
+        c = draw(shape())
+        c['data'] = draw(model.table_data(DATA_TABLES, max_rows=5, min_rows=1))
+        c['catalog'] = 'api-int2' if shape is api_select_shapes else draw(st.sampled_from(sorted(CATALOGS)))
+        return c
+    if extra == 5 and draw(st.integers(0, 1)) == 0:
+        c = draw(cte_name_shapes())
+        c['data'] = draw(model.table_data(DATA_TABLES, max_rows=4, min_rows=1))
+        c['catalog'] = 'default-int1'
+        return c
+    if extra == 4 and draw(st.integers(0, 1)) == 0:
+        c = draw(correlated_shapes())
+        c['data'] = draw(model.table_data(DATA_TABLES, max_rows=4, min_rows=1))
+        c['catalog'] = draw(st.sampled_from(sorted(CATALOGS)))
+        return c
     if draw(st.integers(0, 15)) == 0:
         c = draw(star_over_subselect())
         c['data'] = draw(model.table_data(DATA_TABLES))
